@@ -418,6 +418,58 @@ pub fn run(tier: Tier) -> Report {
         rep.add_transitions(2 * total as u64);
         rep.add_states(total as u64);
         rep.extra("block_sequences_in_one_plane", json!(total));
+        // prediction content: the residual must be *added* to whatever the plane holds. Every
+        // assignment of {0, 255, 100} to the eight rows (and to the eight columns) of the prediction
+        // under each block letter, and sparse patterns with isolated zeros / extremes.
+        {
+            let resid: Vec<Option<[[i32; 8]; 8]>> = letters.iter().map(|(_, b)| run_block(b).ok()).collect();
+            let vals = [0u8, 255, 100];
+            let pats: Vec<usize> = (0..3usize.pow(8)).collect();
+            let n_pred = std::sync::atomic::AtomicU64::new(0);
+            pats.par_iter().for_each(|&code| {
+                for by_rows in [true, false] {
+                    let mut pred = [0u8; 64];
+                    for k in 0..64 {
+                        let line = if by_rows { k / 8 } else { k % 8 };
+                        pred[k] = vals[code / 3usize.pow(line as u32) % 3];
+                    }
+                    for variant in 0..2 {
+                        if variant == 1 {
+                            // the same with single samples flipped to the other extreme
+                            for k in (code % 7..64).step_by(11) {
+                                pred[k] = if pred[k] == 0 { 255 } else { 0 };
+                            }
+                        }
+                        for (li, (name, b)) in letters.iter().enumerate() {
+                            let Some(r) = resid[li] else { continue };
+                            let mut plane = pred.to_vec();
+                            let mut blk = [*b];
+                            n_pred.fetch_add(1, std::sync::atomic::Ordering::Relaxed);
+                            if let Err(p) = catch(|| idct_channel(&mut blk, &mut plane, 1, 8)) {
+                                rep.violation(&panic_sig(&p), format!("{name} over a structured prediction: {p}"), json!({"kind": "idct-prediction", "letter": name, "prediction": pred.to_vec()}));
+                                continue;
+                            }
+                            for k in 0..64 {
+                                let rr = r[k / 8][k % 8];
+                                let want = (pred[k] as i32 + rr).clamp(0, 255);
+                                // a residual observed as -255 may be -256: indistinguishable unless pred = 255
+                                let ok = plane[k] as i32 == want || (rr == -255 && pred[k] == 255 && plane[k] == 0);
+                                if !ok {
+                                    rep.violation_lazy(&format!("C10/residual-not-added-to-prediction-{}", name.split('(').next().unwrap()), || {
+                                        (format!("{name}: sample {k} over prediction {} is {}, prediction + residual ({rr}) = {want}; prediction rows/columns code {code}, by rows = {by_rows}", pred[k], plane[k]), json!({"kind": "idct-prediction", "letter": name, "prediction": pred.to_vec()}))
+                                    });
+                                    break;
+                                }
+                            }
+                        }
+                    }
+                }
+            });
+            let n = n_pred.load(std::sync::atomic::Ordering::Relaxed);
+            rep.add_transitions(n);
+            rep.add_states(n);
+            rep.extra("structured_predictions", json!(n));
+        }
         // planes whose width / height are not multiples of eight: the last column and row of blocks
         // are clipped; every sample inside the plane must equal the block transformed alone, and
         // nothing may be written elsewhere (the plane is followed by guard bytes)
@@ -478,7 +530,7 @@ pub fn run(tier: Tier) -> Report {
     }
     rep.extra("off_by_one_outside_rounding_band_informational", json!(info.load(std::sync::atomic::Ordering::Relaxed)));
     rep.set_rule(&format!(
-        "Annex A procedure verbatim for generator seeds {:?}: 10000 blocks for each of (-256..255), (-5..5), (-300..300) and their negations, forward DCT in f64, rounded, clipped, through idct_channel (hook) as Full blocks, against the f64 inverse; all 4096 Dc blocks; Horiz/Vert: all single-entry vectors over -2048..2047, all two-entry vectors over a 15-value boundary set, dense vectors from the same generator; general blocks with two or three large coefficients (all position pairs x boundary values, row/column pairs plus a third) and sparse full-range blocks; all sequences of 4 (thorough 5) blocks over a 9-letter block alphabet in one plane, in two layouts, each block compared with the same block transformed alone; planes of every size 1..26 (thorough 40) squared and around every power of two to 32768 whose last block column / row is clipped, every sample compared with the block transformed alone; each block is transformed over prediction 0 and 255 to observe residuals -255..255 (-256 is observable only as <= -255); non-trivial = sparse-shape blocks",
+        "Annex A procedure verbatim for generator seeds {:?}: 10000 blocks for each of (-256..255), (-5..5), (-300..300) and their negations, forward DCT in f64, rounded, clipped, through idct_channel (hook) as Full blocks, against the f64 inverse; all 4096 Dc blocks; Horiz/Vert: all single-entry vectors over -2048..2047, all two-entry vectors over a 15-value boundary set, dense vectors from the same generator; general blocks with two or three large coefficients (all position pairs x boundary values, row/column pairs plus a third) and sparse full-range blocks; all sequences of 4 (thorough 5) blocks over a 9-letter block alphabet in one plane, in two layouts, each block compared with the same block transformed alone; every assignment of 0, 255 or 100 to the rows and to the columns of the prediction under each letter (the residual is added to whatever the plane holds); planes of every size 1..26 (thorough 40) squared and around every power of two to 32768 whose last block column / row is clipped, every sample compared with the block transformed alone; each block is transformed over prediction 0 and 255 to observe residuals -255..255 (-256 is observable only as <= -255); non-trivial = sparse-shape blocks",
         seeds
     ));
     rep.sample(json!({"annex_a": "seed 1, range -256..255, block 0: 64 generated samples -> fdct -> Full block"}));
